@@ -54,6 +54,7 @@ class ClientConfigurationEndpoint:
             return self.create_delete_client_response(client, request)
         elif request.method == "PUT":
             return self.create_update_client_response(client, request)
+        raise InvalidRequestError(status_code=405)
 
     def create_endpoint_request(self, request):
         return self.server.create_json_request(request)
@@ -81,6 +82,9 @@ class ClientConfigurationEndpoint:
             "client_secret_expires_at",
             "client_id_issued_at",
         )
+        if not isinstance(request.data, dict):
+            raise InvalidRequestError()
+
         for k in must_not_include:
             if k in request.data:
                 raise InvalidRequestError()
